@@ -3,3 +3,34 @@ pub mod gens;
 pub mod policy;
 pub mod sim;
 pub mod world;
+
+use vcore::{CheckResult, Obs};
+
+/// Development aid (never set by ./check): `PSTACK_ASSUME_KNOWN=prefix1,prefix2` treats failures
+/// whose signature starts with one of the prefixes as passed, so that the search (and the
+/// sensitivity runs against planted defects) can go on past defects that are already reported
+/// but not yet listed in /verif/known_findings.json.
+pub fn dev_filter(r: CheckResult) -> CheckResult {
+    match r {
+        Err(f) => {
+            if let Ok(list) = std::env::var("PSTACK_ASSUME_KNOWN") {
+                if list.split(',').any(|p| !p.is_empty() && f.sig.starts_with(p)) {
+                    return Ok(());
+                }
+            }
+            Err(f)
+        }
+        ok => ok,
+    }
+}
+
+/// Replays run a case several times: the manager breaks ranking ties by the iteration order of a
+/// randomly keyed HashMap (pathset.rs `update_path_cache`), so one history has several
+/// executions; the property quantifies over all of them.
+pub fn replay_repeated<C>(case: &C, obs: &mut Obs, check: impl Fn(&C, &mut Obs) -> CheckResult) -> CheckResult {
+    for _ in 0..32 {
+        let mut o = Obs::default();
+        check(case, &mut o)?;
+    }
+    check(case, obs)
+}
